@@ -41,15 +41,18 @@ var httpStatusConst = map[string]int{
 // str: a string constant — a literal or http.MethodXxx
 func (c *cfacts) str(e ast.Expr, where string) string {
 	if s, ok := strLit(e); ok {
+		c.note(e, "str")
 		return s
 	}
 	if bl, ok := e.(*ast.BasicLit); ok && bl.Kind == token.CHAR {
 		if s, err := strconv.Unquote(bl.Value); err == nil {
+			c.note(e, "char")
 			return s
 		}
 	}
 	if se, ok := e.(*ast.SelectorExpr); ok && exprText(se.X) == "http" {
 		if m, ok := httpMethodConst[se.Sel.Name]; ok {
+			c.note(e, "str")
 			return m
 		}
 	}
@@ -61,11 +64,13 @@ func (c *cfacts) str(e ast.Expr, where string) string {
 func (c *cfacts) num(e ast.Expr, where string) int {
 	if bl, ok := e.(*ast.BasicLit); ok && bl.Kind == token.INT {
 		if v, err := strconv.ParseInt(bl.Value, 0, 32); err == nil && v >= 0 {
+			c.note(e, "num")
 			return int(v)
 		}
 	}
 	if se, ok := e.(*ast.SelectorExpr); ok && exprText(se.X) == "http" {
 		if v, ok := httpStatusConst[se.Sel.Name]; ok {
+			c.note(e, "num")
 			return v
 		}
 	}
